@@ -144,4 +144,9 @@ def check(ctx: Ctx) -> str:
     from .c07 import undeclared_visitor_rule
 
     undeclared_visitor_rule(ctx, "R5")
+    # a macro / call block receives exactly what the call site wrote: every operand, and the
+    # caller / loop variables under their own names
+    from .c02 import call_emission_rule
+
+    call_emission_rule(ctx, "R6")
     return __doc__ or ""
